@@ -118,9 +118,7 @@ pub fn old_rd(rec: &ParsedRecord<'_, &[u8]>) -> Value {
             let n1: Vec<bool> = o.iter::<AllOptData<_, domain::base::Name<&[u8]>>>().map(|x| x.is_ok()).collect();
             let n2: Vec<bool> = o.iter::<AllOptData<_, domain::base::Name<&[u8]>>>().map(|x| x.is_ok()).collect();
             assert_eq!(n1, n2);
-            for x in o.iter::<AllOptData<_, domain::base::Name<&[u8]>>>().flatten() {
-                let _ = format!("{:?}", x);
-            }
+            exercise_options(o);
         }
         _ => {}
     }
@@ -183,20 +181,12 @@ pub fn exercise_record(r: &AnyRecord<'_>) {
             let _ = format!("{} {}", x.cpu(), x.os());
         }
         AllRecordData::Svcb(x) => {
-            let p = x.params();
-            let _ = (p.len(), p.is_empty(), p.iter_raw().count());
-            for v in p.iter_all() {
-                let _ = format!("{:?}", v);
-            }
-            let _ = format!("{} {:?}", x.target(), p);
+            exercise_svc_params(x.params());
+            let _ = format!("{}", x.target());
         }
         AllRecordData::Https(x) => {
-            let p = x.params();
-            let _ = (p.len(), p.is_empty(), p.iter_raw().count());
-            for v in p.iter_all() {
-                let _ = format!("{:?}", v);
-            }
-            let _ = format!("{} {:?}", x.target(), p);
+            exercise_svc_params(x.params());
+            let _ = format!("{}", x.target());
         }
         AllRecordData::Ipseckey(x) => {
             let _ = format!("{:?} {:?} {:?}", x.gateway_type(), x.gateway(), x.algorithm());
@@ -217,6 +207,110 @@ pub fn exercise_record(r: &AnyRecord<'_>) {
         }
         _ => {}
     }
+}
+
+/// every typed view of the service parameters: the raw and the typed
+/// iteration, each typed value's Display / Debug and its own iterator, and
+/// the per-type accessors
+pub fn exercise_svc_params(p: &domain::rdata::svcb::SvcParams<&[u8]>) {
+    use domain::rdata::svcb::value::*;
+    let _ = (p.len(), p.is_empty(), p.iter_raw().count());
+    let _ = format!("{} {:?}", p, p);
+    for v in p.iter_all() {
+        let v = match v {
+            Ok(v) => v,
+            Err(_) => break,
+        };
+        let _ = format!("{} {:?}", v, v);
+        match &v {
+            AllValues::Mandatory(x) => {
+                let _ = x.iter().count();
+            }
+            AllValues::Alpn(x) => {
+                for a in x.iter() {
+                    let _ = a.len();
+                }
+            }
+            AllValues::Ipv4Hint(x) => {
+                for a in x.iter() {
+                    let _ = format!("{}", a);
+                }
+            }
+            AllValues::Ipv6Hint(x) => {
+                for a in x.iter() {
+                    let _ = format!("{}", a);
+                }
+            }
+            _ => {}
+        }
+    }
+    for x in p.iter::<Mandatory<_>>().flatten() {
+        let _ = x.iter().count();
+    }
+    for x in p.iter::<Alpn<_>>().flatten() {
+        let _ = x.iter().count();
+    }
+    for x in p.iter::<Ipv4Hint<_>>().flatten() {
+        let _ = x.iter().count();
+    }
+    for x in p.iter::<Ipv6Hint<_>>().flatten() {
+        let _ = x.iter().count();
+    }
+    for x in p.iter::<Port>().flatten() {
+        let _ = format!("{:?}", x);
+    }
+    for x in p.iter::<Ech<_>>().flatten() {
+        let _ = format!("{:?}", x);
+    }
+    for x in p.iter::<DohPath<_>>().flatten() {
+        let _ = format!("{:?}", x);
+    }
+    let _ = p.iter::<NoDefaultAlpn>().count();
+    let _ = p.iter::<Ohttp>().count();
+}
+
+/// every typed view of the options of an OPT record
+pub fn exercise_options(o: &domain::base::opt::Opt<&[u8]>) {
+    use domain::base::opt::*;
+    type N<'a> = domain::base::Name<&'a [u8]>;
+    for x in o.iter::<AllOptData<_, N<'_>>>().flatten() {
+        let _ = format!("{:?}", x);
+        match &x {
+            AllOptData::Dau(a) => {
+                let _ = a.iter().count();
+            }
+            AllOptData::Dhu(a) => {
+                let _ = a.iter().count();
+            }
+            AllOptData::N3u(a) => {
+                let _ = a.iter().count();
+            }
+            AllOptData::KeyTag(k) => {
+                let _ = k.iter().count();
+            }
+            AllOptData::ClientSubnet(c) => {
+                let _ = format!("{} {:?} {} {}", c, c.addr(), c.source_prefix_len(), c.scope_prefix_len());
+            }
+            AllOptData::Cookie(c) => {
+                let _ = format!("{} {:?}", c, c.server());
+            }
+            AllOptData::ExtendedError(e) => {
+                let _ = format!("{:?} {:?}", e.code(), e.text());
+            }
+            _ => {}
+        }
+    }
+    let _ = o.iter::<ClientSubnet>().map(|x| x.is_ok()).count();
+    let _ = o.iter::<Cookie>().map(|x| x.is_ok()).count();
+    let _ = o.iter::<TcpKeepalive>().map(|x| x.is_ok()).count();
+    let _ = o.iter::<Expire>().map(|x| x.is_ok()).count();
+    let _ = o.iter::<Padding<_>>().map(|x| x.is_ok()).count();
+    let _ = o.iter::<Nsid<_>>().map(|x| x.is_ok()).count();
+    let _ = o.iter::<ExtendedError<_>>().map(|x| x.is_ok()).count();
+    let _ = o.iter::<Chain<N<'_>>>().map(|x| x.is_ok()).count();
+    let _ = o.iter::<KeyTag<_>>().map(|x| x.is_ok()).count();
+    let _ = o.iter::<Dau<_>>().map(|x| x.is_ok()).count();
+    let _ = o.first::<ClientSubnet>();
 }
 
 fn q_item(q: &Question<ParsedName<&[u8]>>) -> Value {
@@ -373,6 +467,7 @@ pub fn old_projection(m: &[u8], starts: &[usize], slw: &mut SliceProbe, predicte
                 }
                 let _ = opt.dnssec_ok();
                 let _ = msg.opt_rcode();
+                exercise_options(opt.opt());
                 let ttlhi = (u16::from(opt.rcode(msg.header()).ext()) << 8) | u16::from(opt.version());
                 let rec = opt.as_record();
                 let ttl = rec.ttl().as_secs();
@@ -582,8 +677,16 @@ pub fn classify(exp: &Value, dev: &Value, obs: &Value) -> (Vec<String>, Vec<Stri
             return (known, bad);
         }
     };
+    // deviations the executor itself attributes (RDATA the spec does not
+    // know): they count as witnessed deviations, which must be open
+    let hdevs: Vec<String> = oo
+        .get("harness_devs")
+        .and_then(|v| v.as_array())
+        .map(|a| a.iter().filter_map(|x| x.as_str().map(|s| s.to_string())).collect())
+        .unwrap_or_default();
+    known.extend(hdevs.iter().cloned());
     for k in oo.keys() {
-        if !eo.contains_key(k) {
+        if !eo.contains_key(k) && k != "harness_devs" {
             bad.push(k.clone());
         }
     }
@@ -596,6 +699,9 @@ pub fn classify(exp: &Value, dev: &Value, obs: &Value) -> (Vec<String>, Vec<Stri
             }
         };
         if ov == ev {
+            continue;
+        }
+        if k == "agree" && !hdevs.is_empty() {
             continue;
         }
         if k == "sl" {
